@@ -1,7 +1,7 @@
 (* C11/Properties.v — the property theorems, nothing else.  Each is closed by [exact lemma]
    and followed by Print Assumptions (captured into the evidence by the check driver). *)
 From Coq Require Import Permutation.
-From Verif Require Import Common.Base Generated.StatusTable C11.Model C11.Diagram C11.Proofs C11.ProofsConc C11.ProofsRepair C11.ProofsTie C11.ProofsRound4 C11.ProofsAudit C11.Harness C11.ProofsPropOk C11.ProofsLink C11.Repaired.
+From Verif Require Import Common.Base Generated.StatusTable C11.Model C11.Diagram C11.Proofs C11.ProofsConc C11.ProofsRepair C11.ProofsTie C11.ProofsRound4 C11.ProofsAudit C11.Harness C11.ProofsPropOk C11.ProofsLink C11.Repaired C11.ProofsOrder.
 From Verif Require Import Generated.C11Ring.
 
 (* The transition table read from the Go source IS the documented diagram (instance obligation,
@@ -296,6 +296,29 @@ Theorem shared_delivers_all_repaired_full : forall i j es es',
   (proj_events i (sc_events_repaired os) <> [] -> exists r, proj_events j (sc_events_repaired os) = Starting :: r).
 Proof. exact shared_delivers_all_repaired. Qed.
 
+(* ---- round 7: the notification order built by extensions.New / computeOrder --------------------------------------
+   ext_ids cfg = the keys of extMap: every configured extension exactly once, however often service::extensions
+   names it; [order] = any enumeration of them (the topological order is one). *)
+Theorem extension_order_is_duplicate_free : forall cfg, NoDup (ext_ids cfg) /\ forall x, In x (ext_ids cfg) <-> In x cfg.
+Proof. exact (fun cfg => conj (ext_ids_nodup_l cfg) (ext_ids_in_l cfg)). Qed.
+
+(* ... so every watcher extension named in the configuration (once or several times) is handed every accepted event
+   EXACTLY ONCE, in order (this removes the NoDup hypothesis of watcher_sees_every_event for the order the code builds) ... *)
+Theorem configured_watcher_sees_every_event_once : forall (isw : nat -> bool) cfg order w evs,
+  Permutation (ext_ids cfg) order -> In w cfg -> isw w = true ->
+  seen_by w (watcher_deliveries (filter isw order) evs) = evs.
+Proof. exact configured_watcher_sees_all_l. Qed.
+
+Theorem configured_watchers_see_diagram_paths : forall (isw : nat -> bool) cfg order w ls i,
+  Permutation (ext_ids cfg) order -> In w cfg -> isw w = true ->
+  path SNone (proj_events i (seen_by w (watcher_deliveries (filter isw order) (snd (rep_run [] ls))))).
+Proof. exact configured_watcher_path_l. Qed.
+
+(* ... and the duplicate-freeness is necessary: a watcher occurring twice in the order sees Starting, Starting, OK, OK. *)
+Theorem duplicate_in_notification_order_refuted :
+  exists ws w evs, In w ws /\ ~ path SNone (proj_events 0 (seen_by w (watcher_deliveries ws evs))) /\ path SNone (proj_events 0 evs).
+Proof. exact duplicate_in_order_refuted_l. Qed.
+
 Print Assumptions table_is_diagram.
 Print Assumptions events_follow_diagram.
 Print Assumptions events_in_words.
@@ -340,3 +363,7 @@ Print Assumptions checker_rejects_shared_model_refuted.
 Print Assumptions checker_accepts_shared_repaired_model.
 Print Assumptions shared_delivers_all_repaired_full.
 Print Assumptions checker_accepts_shared_model_general.
+Print Assumptions extension_order_is_duplicate_free.
+Print Assumptions configured_watcher_sees_every_event_once.
+Print Assumptions configured_watchers_see_diagram_paths.
+Print Assumptions duplicate_in_notification_order_refuted.
